@@ -1814,6 +1814,8 @@ impl Element {
                 }
             } else {
                 let pos = ps.position();
+                // always consume the offending character itself, so that the attribute loop makes progress
+                ps.next();
                 loop {
                     let Some(peek) = ps.peek::<0>() else { break };
                     if peek == '/'
@@ -2595,6 +2597,8 @@ impl CustomAttribute {
                 }
             } else {
                 let pos = ps.position();
+                // always consume the offending character itself, so that the attribute loop makes progress
+                ps.next();
                 loop {
                     let Some(peek) = ps.peek::<0>() else { break };
                     if peek == '>' || Ident::is_start_char(peek) || char::is_whitespace(peek) {
